@@ -48,7 +48,11 @@ func init() {
 
 func hcClassify(r *vrt.Result) []string {
 	pings, expectAt := 0, 0
+	maybe := false
 	for _, l := range r.Log {
+		if strings.HasPrefix(l, "MAYBE-CRASH") {
+			maybe = true
+		}
 		if strings.HasPrefix(l, "ping ") {
 			pings++
 		}
@@ -63,6 +67,9 @@ func hcClassify(r *vrt.Result) []string {
 		}
 		return nil
 	case vrt.StatusCrash:
+		if expectAt == 0 && maybe {
+			return nil
+		}
 		if expectAt == 0 {
 			return []string{fmt.Sprintf("the process was terminated (%s) although no round had five consecutive failures (%d pings issued)", r.Crash.Value, pings)}
 		}
@@ -169,12 +176,15 @@ func hcMain(p HCParams) {
 		hc.Start()
 		vrt.Sleep(stopAt)
 		before := len(pingTimes)
+		rec.stopCalled = true
 		hc.Stop()
 		vrt.Window(false)
 		// promptness without a wall-clock oracle: Stop may wait for the ping in flight (or one that the
 		// loop had already committed to), but not for retries or further rounds; a Stop that never
 		// returns is reported as a hang
-		if extra := len(pingTimes) - before; extra > 1 {
+		// at most: the ping in flight when Stop was called + one more when the loop's select still picks a
+		// pending tick (Go chooses among ready cases at random); retries and later rounds must not happen
+		if extra := len(pingTimes) - before; extra > 2 {
 			vrt.Failf("%d pings were issued between the call of Stop() and its return (stop at %v): Stop does not interrupt the round", extra, stopAt)
 		}
 		n := len(pingTimes)
@@ -227,17 +237,26 @@ func hcMain(p HCParams) {
 type pingRec struct {
 	couchbase.Client
 	calls, consec int
+	stopCalled    bool
 }
 
 func (p *pingRec) Ping() (*models.PingResult, error) {
 	p.calls++
 	n := p.calls
+	afterStop := p.stopCalled
 	res, err := p.Client.Ping()
 	vrt.Logf("ping #%d err=%v", n, err != nil)
 	if err != nil {
 		p.consec++
 		if p.consec == 5 {
-			vrt.Logf("EXPECT-CRASH after ping %d", n)
+			if afterStop {
+				// issued after Stop() was called: it may be the first attempt of a round the loop still
+				// picked (select chose the pending tick), which the harness cannot tell from the fifth
+				// attempt of the interrupted round; either outcome is legal
+				vrt.Logf("MAYBE-CRASH after ping %d", n)
+			} else {
+				vrt.Logf("EXPECT-CRASH after ping %d", n)
+			}
 		}
 	} else {
 		p.consec = 0
